@@ -257,7 +257,7 @@ pub fn gen_scenario(r: &mut Rng, seed: u64) -> Scenario {
     }
     let mut desc = desc;
     desc["rival_seeder"] = json!(rival);
-    Scenario { cfg: SimCfg { torrent, peers, tracker: vec![], failpoints: if r.chance(1, 3) { Some(r.next()) } else { None }, max_virtual_ms: end_ms - 1000, stop_on_extract: true, linger_ms: 100, disk_on: disk_never, seed, tracker_fn: None, driver: None }, desc }
+    Scenario { cfg: SimCfg { torrent, peers, tracker: vec![], failpoints: if r.chance(1, 3) { Some(r.next()) } else { None }, max_virtual_ms: end_ms - 1000, stop_on_extract: true, linger_ms: 100, disk_on: disk_never, seed, pre: None, tracker_fn: None, driver: None }, desc }
 }
 
 pub fn run(ctx: &Ctx) -> Report {
